@@ -67,6 +67,9 @@ pub struct Stream {
     pub fields: Vec<(usize, Field)>,
     pub typed_enc: usize,
     pub raw_enc: usize,
+    /// Per frame: absolute spans of the bodies that are a single bare Recon token at the top
+    /// level (number, identifier, boolean, blob), for typed decoders only.
+    pub bare_tokens: Vec<Vec<(usize, usize)>>,
 }
 
 impl Stream {
@@ -99,7 +102,7 @@ pub fn expected_of(fam: &Fam, m: &Msg) -> Option<Msg> {
 
 pub fn build(fam: &Fam, items: &[Item]) -> Option<Stream> {
     let mut dst = BytesMut::new();
-    let mut st = Stream { bytes: vec![], ends: vec![], expected: vec![], fields: vec![], typed_enc: 0, raw_enc: 0 };
+    let mut st = Stream { bytes: vec![], ends: vec![], expected: vec![], fields: vec![], typed_enc: 0, raw_enc: 0, bare_tokens: vec![] };
     for (i, it) in items.iter().enumerate() {
         let before = dst.len();
         let typed = fam.encode(&it.m, it.typed, &mut dst);
@@ -110,7 +113,26 @@ pub fn build(fam: &Fam, items: &[Item]) -> Option<Stream> {
         }
         let flen = dst.len() - before;
         assert!(flen > 0, "harness: encoder wrote nothing for {:?}", it.m);
-        for f in layout(fam, &it.m, flen) {
+        let lay = layout(fam, &it.m, flen);
+        // The scalar bodies are the last Body fields of the frame, in order.
+        let scalars = it.m.scalars();
+        let bodies: Vec<&Field> = lay.iter().filter(|f| f.kind == FK::Body).collect();
+        let mut spans = vec![];
+        if !fam.raw_dec {
+            for (sc, f) in scalars.iter().zip(&bodies[bodies.len() - scalars.len()..]) {
+                let w = sc.wire();
+                assert!(w.len() == f.width, "harness: body field does not match the scalar");
+                if let Ok(text) = std::str::from_utf8(&w) {
+                    let lead = text.len() - text.trim_start().len();
+                    let t = text.trim();
+                    if !t.is_empty() && !t.starts_with(['"', '@', '{']) {
+                        spans.push((before + f.off + lead, before + f.off + lead + t.len()));
+                    }
+                }
+            }
+        }
+        st.bare_tokens.push(spans);
+        for f in lay {
             st.fields.push((i, Field { off: f.off + before, ..f }));
         }
         st.ends.push(dst.len());
@@ -154,18 +176,21 @@ pub struct Run {
     pub contract: Option<(&'static str, String)>,
     pub leftover: usize,
     pub decode_calls: usize,
+    /// Stream offsets at which a read ended (chunk boundaries).
+    pub reads: Vec<usize>,
 }
 
 /// Append a chunk, call `decode` until `Ok(None)`; after the last chunk call `decode_eof` until
 /// `Ok(None)`. Stops at the first `Err` (a `FramedRead` ends the stream there).
 pub fn feed(dec: &mut dyn Dec, stream: &[u8], chunks: &mut dyn FnMut(usize) -> usize) -> Run {
-    let mut run = Run { msgs: vec![], err: None, contract: None, leftover: 0, decode_calls: 0 };
+    let mut run = Run { msgs: vec![], err: None, contract: None, leftover: 0, decode_calls: 0, reads: vec![] };
     let mut buf = BytesMut::new();
     let mut fed = 0usize;
     while fed < stream.len() {
         let n = chunks(stream.len() - fed).clamp(1, stream.len() - fed);
         buf.extend_from_slice(&stream[fed..fed + n]);
         fed += n;
+        run.reads.push(fed);
         loop {
             let before = buf.len();
             run.decode_calls += 1;
@@ -241,7 +266,11 @@ fn short(m: &Msg) -> String {
 fn verify_prefix(fam: &Fam, st: &Stream, upto: usize, complete: bool, run: &Run) -> Option<(String, String)> {
     let name = fam.name;
     for j in 0..upto {
-        let kind = st.expected[j].kind();
+        // A read boundary strictly inside a bare top-level token of this frame's body is the
+        // trigger of a defect of the Recon stream parser underneath every typed decoder (see
+        // NOTES.md, finding 1); it gets its own signature so that it does not hide anything else.
+        let split_token = st.bare_tokens[j].iter().any(|(s, e)| run.reads.iter().any(|r| s < r && r < e));
+        let kind = format!("{}{}", st.expected[j].kind(), if split_token { "/split-bare-token" } else { "" });
         match run.msgs.get(j) {
             Some((m, pos)) => {
                 if m != &st.expected[j] {
@@ -490,7 +519,7 @@ fn field_at(st: &Stream, pos: usize) -> Option<&Field> {
     st.fields
         .iter()
         .map(|(_, f)| f)
-        .filter(|f| f.off <= pos && pos < f.off + f.width.max(1))
+        .filter(|f| f.off <= pos && pos < f.off + f.width)
         .min_by_key(|f| f.width)
 }
 
